@@ -31,7 +31,7 @@ theorem events_in_cs {c c' : Cfg} {p : PState} {t : Tid} {ch : Choice} {ev : Ev}
     have hi := hst.sim.thr t
     cases hpc : (c.loc t).pc <;> simp only [tstep, hpc] at hts
     all_goals try ((repeat' split at hts) <;> cases hts <;> done)
-    case init => (repeat' split at hts) <;> cases hts; trivial
+    case init => (repeat' split at hts) <;> cases hts <;> trivial
     case a2 => cases hts; exact hsf.r (by simp [hpc, inR])
     case a5 => (repeat' split at hts) <;> cases hts <;> exact hsf.w (by simp [hpc, inW])
     case a7 => cases hts; trivial
@@ -50,6 +50,15 @@ theorem events_in_cs {c c' : Cfg} {p : PState} {t : Tid} {ch : Choice} {ev : Ev}
     case c9 => (repeat' split at hts) <;> cases hts; exact hsf.w (by simp [hpc, inW])
     case c11 => cases hts; exact ⟨_, hi.own (c.loc t).cur (by simp [holdsOf, hpc])⟩
     case cend => cases hts; trivial
+    case g1 => cases hts; trivial
+    case g3 => cases hts; exact (hi.ext ((c.loc t).m, .w) (by simp [extra, hpc])).1
+    case g5 => cases hts; exact hsf.r (by simp [hpc, inR])
+    case g8 => cases hts; exact hsf.w (by simp [hpc, inW])
+    case g10 => cases hts; trivial
+    case g11 =>
+      cases hts
+      exact ⟨_, hi.own ⟨(c.loc t).m, (c.loc t).key, .w, (c.loc t).okcur⟩ (by simp [holdsOf, hpc])⟩
+    case g13 => cases hts; trivial
 
 /-- `store.mu` is exclusive: two threads inside `s.mu.Lock()` sections are the same thread, and nobody is
     inside an `RLock` section at the same time -/
